@@ -264,6 +264,10 @@ func recycleScenario(i int) {
 		return
 	}
 	control, healed := "10.9.0.1:80", "10.9.0.2:80"
+	// two healthy bystanders keep the pool large enough for the verdict below: the property only bounds the filter
+	// from above, and an implementation may refuse to filter out the last known nodes
+	call("10.9.0.3:80", false)
+	call("10.9.0.4:80", false)
 	// both nodes trip; both are then seen as outliers by the next request (which schedules their recycling)
 	call(control, true)
 	call(healed, true)
@@ -306,6 +310,8 @@ func recycleScenario(i int) {
 	}
 	// the healed node must still be known: make it fail again and it must be reported immediately
 	// (a recycled node would first have to be re-created by a completion)
+	call("10.9.0.3:80", false)
+	call("10.9.0.4:80", false)
 	if !flapping {
 		clk.AddMs(100)
 		call(healed, true)
@@ -340,7 +346,7 @@ func main() {
 	if os.Getenv("VERIF_MODE") == "recycle" {
 		run = vk.Start("C20", "recycle")
 		defer run.Finish()
-		run.Rule("scenario = two nodes trip; one completes requests successfully afterwards (odd scenarios: and then fails and is reported again within the same interval), the other (control) never does; once the control node has been observed gone (recycle interval 1 s, real timer) the recovered node must still be known. distinct = scenarios.")
+		run.Rule("scenario = two healthy bystander nodes; two nodes trip; one completes requests successfully afterwards (odd scenarios: and then fails and is reported again within the same interval), the other (control) never does; once the control node has been observed gone (recycle interval 1 s, real timer) the recovered node must still be known. distinct = scenarios.")
 		run.Assume("real time.AfterFunc timers of the recycler; the verdict is only taken after the control node was observed recycled")
 		n := run.N(4, 20)
 		for i := 0; i < n; i++ {
